@@ -1573,6 +1573,32 @@ func (m *simpleMaxContentLengthMiddlewareBase) ServeNostrServerMsg(
 	return newClosedBufCh(msg), nil
 }
 
+// The created_at limits are compared in whole seconds: time.Duration covers only
+// about 292 years, so neither a limit nor a distance beyond that can be expressed in it.
+
+// satSub returns a - b, saturating instead of wrapping around.
+func satSub(a, b int64) int64 {
+	d := a - b
+	if (a >= 0) != (b >= 0) && (d >= 0) != (a >= 0) {
+		if a >= 0 {
+			return 1<<63 - 1
+		}
+		return -1 << 63
+	}
+	return d
+}
+
+// createdAtOlderThan reports whether now - created_at > sec seconds.
+func createdAtOlderThan(ev *Event, sec int64, now time.Time) bool {
+	d := satSub(now.Unix(), ev.CreatedAtTime().Unix())
+	return d > sec || d == sec && now.Nanosecond() > 0
+}
+
+// createdAtNewerThan reports whether created_at - now > sec seconds.
+func createdAtNewerThan(ev *Event, sec int64, now time.Time) bool {
+	return satSub(ev.CreatedAtTime().Unix(), now.Unix()) > sec
+}
+
 type CreatedAtLowerLimitMiddleware Middleware
 
 func NewCreatedAtLowerLimitMiddleware(lower int64) CreatedAtLowerLimitMiddleware {
@@ -1607,7 +1633,7 @@ func (m *simpleCreatedAtLowerLimitMiddlewareBase) ServeNostrClientMsg(
 	msg ClientMsg,
 ) (<-chan ClientMsg, <-chan ServerMsg, error) {
 	if msg, ok := msg.(*ClientEventMsg); ok {
-		if time.Since(msg.Event.CreatedAtTime()) > time.Duration(m.lower)*time.Second {
+		if createdAtOlderThan(msg.Event, m.lower, time.Now()) {
 			smsgCh := newClosedBufCh[ServerMsg](NewServerOKMsg(
 				msg.Event.ID,
 				false,
@@ -1662,7 +1688,7 @@ func (m *simpleCreatedAtUpperLimitMiddlewareBase) ServeNostrClientMsg(
 	msg ClientMsg,
 ) (<-chan ClientMsg, <-chan ServerMsg, error) {
 	if msg, ok := msg.(*ClientEventMsg); ok {
-		if time.Until(msg.Event.CreatedAtTime()) > time.Duration(m.upper)*time.Second {
+		if createdAtNewerThan(msg.Event, m.upper, time.Now()) {
 			smsgCh := newClosedBufCh[ServerMsg](NewServerOKMsg(
 				msg.Event.ID,
 				false,
